@@ -105,7 +105,15 @@ func RunAndCompareCfg(c *core.Ctx, progs []M, cfg string, batch int, rcfg *elkru
 	}
 	// explain differences by recorded known deviations (one deviating model run per deviation)
 	if len(mism) > 0 {
-		for _, dev := range c.KnownDeviations() {
+		devSets := [][]string{}
+		for _, d := range c.KnownDeviations() {
+			devSets = append(devSets, []string{d})
+		}
+		if all := c.KnownDeviations(); len(all) > 1 {
+			devSets = append(devSets, all) // several recorded deviations in one program
+		}
+		for _, devs := range devSets {
+			dev := strings.Join(devs, "+")
 			var todo []M
 			for _, m := range mism {
 				if m.rec["deviation"] == nil && m.rec["kind"] == "output_mismatch" {
@@ -115,7 +123,7 @@ func RunAndCompareCfg(c *core.Ctx, progs []M, cfg string, batch int, rcfg *elkru
 			if len(todo) == 0 {
 				break
 			}
-			dr, err := Predict(c, todo, "Deviant.cfg", MaxSteps, 20*time.Minute, dev)
+			dr, err := Predict(c, todo, "Deviant.cfg", MaxSteps, 20*time.Minute, devs...)
 			if err != nil {
 				return err
 			}
